@@ -8,5 +8,10 @@ def run(prop, tier, replay):
     if prop in E1_PROPS:
         import p_e1
         return p_e1.replay(prop, replay) if replay else p_e1.check(prop, tier)
+    if prop in ("C13", "C14", "C15"):
+        import p_e3
+        if replay:
+            return p_e3.replay(prop, replay)
+        return {"C13": p_e3.check_c13, "C14": p_e3.check_c14, "C15": p_e3.check_c15}[prop](tier)
     sys.stderr.write("no check implemented for %s\n" % prop)
     return 2
